@@ -366,6 +366,8 @@ def trace_ids(chk):
         if v[0] != 'term':
             return None
         op, a = v[1], v[2]
+        if re.fullmatch(r'field:0', op) and re.fullmatch(r'field:0\((?:call|havoc):\w*Enumerate\w*::next\(.*\)(?:, \d+)?\)', vshow(a[0])):
+            return 'i'          # the index of `for (i, target) in addrs.iter().enumerate()`
         if op == 'unwrap_or' and len(a) == 2 and isinstance(a[0], tuple) and a[0][0] == 'term' and re.search(r'try_from$', a[0][1]):
             inner, dflt = comp(a[0][2][0]), comp(a[1])       # u16::try_from(x).unwrap_or(d)
             return None if inner is None or dflt is None else '(%s if 0 <= %s <= 65535 else %s)' % (inner, inner, dflt)
@@ -407,8 +409,12 @@ def trace_ids(chk):
     if fn['kind'] == 'Closure':
         outs = eng.run(fn, [eng.sym_ref(st, 'env'), ('tuple', [('sym', 'i'), eng.sym_ref(st, 'target')])], st)
     else:
-        chk.fail('R8', 'anchor', fn_loc(fs), 'start_tracers no longer maps a closure over the enumerated targets: shape not recognised', key='R8|anchor')
-        return
+        # the same assignment written as a loop over addrs.iter().enumerate(): the index is the first component of the item
+        engl = Engine(prog, inline_depth=2, opaque=[r'app::start_tracer$'], loop_visits=1)
+        outs = engl.run(fn, [engl.sym_ref(st, 'cfg'), engl.sym_ref(st, 'addrs'), ('sym', 'pid')], st)
+        outs = [o for o in outs if user_calls(o, r'app::start_tracer$')][:1]
+        for o in outs:
+            o.kind = 'return'
     # the pid domain established by the caller
     ft = prog.find(r'trippy_tui::trippy$')
     e0 = Engine(prog, inline_depth=0)
